@@ -93,3 +93,15 @@ Theorem C07_results_hold_input_gaps : forall c g prefix bpt input pretext rs,
     exists isc, In isc input /\ In (RG gp) (snd isc).
 Proof. exact Proofs.GapProvenance.gap_provenance_results. Qed.
 Print Assumptions C07_results_hold_input_gaps.
+
+(* "no output scaffold begins or ends with a gap", END TO END: every output
+   scaffold of every completed run -- any input, any Pretext map, any
+   configuration, no hypothesis at all -- is non-empty and begins and ends
+   with a fragment *)
+From Tola Require Proofs.PipelineInv.
+Theorem C07_output_scaffolds_well_formed : forall c g prefix bpt input pretext o,
+  remap c g prefix bpt input pretext = Ok o ->
+  forall a sc, In a (out_asms o) -> In sc (oa_scaffolds a) ->
+    sc_rows sc <> [] /\ (exists f t, sc_rows sc = RF f :: t) /\ (exists f t, sc_rows sc = t ++ [RF f]).
+Proof. exact Proofs.PipelineInv.output_scaffolds_well_formed. Qed.
+Print Assumptions C07_output_scaffolds_well_formed.
